@@ -6,7 +6,17 @@ from common import REPO, hx  # noqa: F401
 
 
 def rand_bytes(rng, n, style=None):
-    style = style or rng.choice(['uniform', 'uniform', 'ff', 'zero', 'bits', 'ramp', 'const', 'rows', 'single'])
+    style = style or rng.choice(['uniform', 'uniform', 'ff', 'zero', 'bits', 'ramp', 'const', 'rows', 'single', 'records'])
+    if style == 'records':
+        # 68-byte records (sound effects), each one of: the untouched default of a new cart (no notes, speed 16), the same with speed 1
+        # (sound effect 0 of a new cart), all zero, only a header, random — so that "looks unused" and "is the default" differ per record
+        out = bytearray()
+        while len(out) < n:
+            k = rng.randrange(6)
+            out += (bytes(64) + b'\x00\x10\x00\x00' if k == 0 else bytes(64) + b'\x00\x01\x00\x00' if k == 1 else bytes(68) if k == 2
+                    else bytes(64) + bytes(rng.getrandbits(8) for _ in range(4)) if k == 3
+                    else bytes(rng.getrandbits(8) for _ in range(64)) + b'\x00\x10\x00\x00' if k == 4 else bytes(rng.getrandbits(8) for _ in range(68)))
+        return bytes(out[:n])
     if style == 'single':
         # all zero except one byte in every 68-byte stretch, at a position that moves through the stretch (sfx patterns, rows, cells
         # whose only content is their last / first / some middle byte)
